@@ -360,6 +360,13 @@ class SimSocket(Conn):
     def shutdown(self, how) -> None:
         if self.closed_by_client:
             raise OSError(9, "Bad file descriptor")
+        if getattr(self, "_rst", False) or any(it[0] == "rst" for it in self._rx):
+            # the peer reset the connection (also when the reset is still queued behind unread data): ENOTCONN
+            raise OSError(107, "Transport endpoint is not connected")
+
+    def peer_closed(self) -> bool:
+        """FIN or RST from the peer has reached this host (possibly behind unread data)."""
+        return self._eof or any(it[0] in ("eof", "rst") for it in self._rx)
 
     def close(self) -> None:
         if not self.closed_by_client:
